@@ -23,6 +23,8 @@ class DirState:
         self.undecodable = False
         self.kexinit = None
         self.kexinit_epoch = -1
+        self.last_padlen = None
+        self.last_len = -1
 
 
 class Observer(Wire):
@@ -98,6 +100,9 @@ class Observer(Wire):
         if used != len(data):
             raise CodecError('write holds %d bytes beyond one packet' %
                              (len(data) - used))
+
+        ds.last_padlen = padlen
+        ds.last_len = len(data)
 
         if ds.cmp_active:
             if ds.inflate is None:
